@@ -117,7 +117,12 @@ func genContextual(t *rapid.T) CTuple {
 	case 5:
 		return CTuple{Object: "folder:" + id, Relation: "viewer", User: "group:" + pick(t, "ctGroup", ids) + "#member"}
 	case 6:
-		return CTuple{Object: "group:" + id, Relation: "member", User: "group:" + pick(t, "ctGroup", ids) + "#member"}
+		g := pick(t, "ctGroup", ids)
+		if g == id {
+			// a userset pointing at itself is not a valid contextual tuple (C18); use a plain user instead
+			return CTuple{Object: "group:" + id, Relation: "member", User: "user:" + pick(t, "ctUser", userIDs[:4])}
+		}
+		return CTuple{Object: "group:" + id, Relation: "member", User: "group:" + g + "#member"}
 	default:
 		return CTuple{Object: "doc:" + id, Relation: "owner", User: "user:" + pick(t, "ctUser", userIDs[:4])}
 	}
